@@ -7,6 +7,9 @@ for l in open(os.path.join(V, "seeded", "CONFIRMED.txt")):
     if l.startswith("C"):
         conf[l.split()[0]] = l.strip()
 HAND = {
+ "C02-c-regress-uninit-enum": dict(change="reverse of fix 0499544: QXmppDiscoveryIqPrivate::queryType is left uninitialised by the default constructor again",
+     needs="a discovery IQ that is built with the default constructor and serialized without setQueryType(); the stale value must differ from InfoQuery to change behaviour, and only a valgrind/UBSan run sees the read itself",
+     also=["C01"]),
  "C02-b-regress-mix-event": dict(change="reverse of fix e1b86d8: QXmppMixManager::handlePubSubEvent takes constFirst() of the item list of a configuration/information event again",
      needs="an event notification for a MIX config/info node that carries <items node=.../> with no <item/>, and an application that reads the object handed to it by the signal",
      also=[]),
